@@ -25,10 +25,40 @@ def sh(cmd, cwd=None, timeout=1800, env=None):
     return p.returncode, p.stdout
 
 
+def stored(sid, props):
+    """re-run the checks against a change already stored under /verif/seeded/<sid>/ (its worktree is gone)"""
+    dest = os.path.join(VERIF, "seeded", sid)
+    rp = os.path.join(dest, "result.json")
+    res = json.load(open(rp))
+    props = props or [res["property"]]
+    rc, out = sh("git -C /repo status --short | grep -v '^??' | head -3")
+    if out.strip():
+        print("refusing: /repo has local modifications:", out)
+        return 2
+    rc, out = sh("git -C /repo apply %s" % os.path.join(dest, "patch.diff"))
+    if rc != 0:
+        print("patch does not apply to /repo:", out)
+        return 2
+    try:
+        for p in props:
+            t0 = time.time()
+            rc, out = sh("bin/check %s quick" % p, cwd=VERIF, timeout=3000)
+            labels = sorted(set(re.findall(r"label=(\S+)", out)))
+            res["checks"][p] = {"exit": rc, "labels": labels, "wall_s": round(time.time() - t0, 1),
+                                "tail": out[-400:] if rc == 2 else ""}
+            print(sid, p, "exit", rc, labels, flush=True)
+    finally:
+        sh("git -C /repo checkout -- .")
+    json.dump(res, open(rp, "w"), indent=1)
+    return 0
+
+
 def main():
     args = [a for a in sys.argv[1:] if not a.startswith("--")]
     opts = dict(a[2:].split("=", 1) for a in sys.argv[1:] if a.startswith("--") and "=" in a)
     sid = args[0]
+    if "--stored" in sys.argv:
+        return stored(sid, args[1:])
     wt = os.path.join(opts.get("root", "/tmp/mut"), sid)
     seed = os.path.join(wt, "seed")
     meta = json.load(open(os.path.join(seed, "meta.json")))
